@@ -25,7 +25,7 @@ RULE = ("seeded generated supported-fragment programs restricted to 3.8 syntax (
         "nested f-strings with quotes, positional-only parameters, dict/set displays with stars, lambda defaults, "
         "parenthesis-sensitive forms) + targeted shapes + a hash-selected slice of C12's class-statement catalogue (every "
         "member kind, headers, placements) + the repository's scripts x 8 option combinations x host "
-        "interpreter {3.10, 3.12} (thorough: 3.10-3.13) x runtime interpreter {3.8, 3.9, 3.11, 3.13} (thorough: 3.8-3.13). "
+        "interpreter {3.10, 3.12} + a targeted/class/scripts slice on {3.11, 3.13} (thorough: 3.10-3.13 in full) x runtime interpreter {3.8, 3.9, 3.11, 3.13} (thorough: 3.8-3.13). "
         "A record is distinct by (host, normalised output text); non-trivial iff the original runs on that runtime "
         "and prints something.")
 ASSUMPTIONS = ["programs whose original fails on a runtime are out of the domain for that runtime",
@@ -33,7 +33,7 @@ ASSUMPTIONS = ["programs whose original fails on a runtime are out of the domain
 EXHAUSTIVE = {"quick": False, "thorough": False}
 FLOOR = {"quick": 3000, "thorough": 50000}
 MONITORS = False
-SIZES = {"quick": dict(n=420, class_mod=6, hosts=["3.10", "3.12"], runtimes=["3.8", "3.9", "3.11", "3.13"]),
+SIZES = {"quick": dict(n=420, class_mod=6, hosts=["3.10", "3.12"], slice_hosts=["3.11", "3.13"], runtimes=["3.8", "3.9", "3.11", "3.13"]),
          "thorough": dict(n=6000, class_mod=1, hosts=["3.10", "3.11", "3.12", "3.13"], runtimes=["3.8", "3.9", "3.10", "3.11", "3.12", "3.13"])}
 RUNNER = os.path.join(envs.LIB, "olverif", "runtime_runner.py")
 
@@ -98,6 +98,9 @@ def jobs(tier, seed):
     for h in size["hosts"]:
         n = 8 if tier == "quick" else 16
         out += [{"host": h, "shard": i, "nshards": n, "args": {}} for i in range(n)]
+    for h in size.get("slice_hosts", []):
+        # the other hosts convert the targeted programs, the class catalogue slice and the repository's scripts only
+        out += [{"host": h, "shard": i, "nshards": 4, "args": {"slice": True}} for i in range(4)]
     return out
 
 
@@ -128,6 +131,11 @@ def star_subscript_trigger(tree, cfg, host, runtime):
     return False
 
 
+# member kinds whose lowering depends on what the *host's* symbol tables say: always in the slice (under one plain header)
+ALWAYS_MEMBERS = {"private", "super0", "super0_in_loops", "super0_posonly", "super0_in_headers", "super_nested", "classcell", "initsub_classmethod",
+                  "classgetitem_decorated", "comp", "lambda", "read_before_bind"}
+
+
 def class_catalogue(rec, size):
     """A hash-selected slice of C12's class-statement catalogue (its observation helper goes along as a prelude)."""
     from . import c12
@@ -137,7 +145,8 @@ def class_catalogue(rec, size):
             continue
         if hdr[3] not in (0, 1) and members:
             continue
-        if int(rt.h8(["c15", list(hdr), members, pl, rec.seed]), 16) % size["class_mod"]:
+        always = members and members[0] in ALWAYS_MEMBERS and hdr == ("one", "no", "no", 0)
+        if not always and int(rt.h8(["c15", list(hdr), members, pl, rec.seed]), 16) % size["class_mod"]:
             continue
         src = c12.program(hdr[0], hdr[1], hdr[2], hdr[3], members, pl)
         if any(findings.triggered("C12", src=src, cfg=c) for c in envs.CFGS[:1]):
@@ -152,6 +161,8 @@ def sources(rec, size):
         yield t
     for f in sorted(glob.glob(os.path.join(envs.REPO, "oneliner_tests", "test_cases", "*.py"))):
         yield "repo:" + os.path.basename(f), open(f).read()
+    if rec.args.get("slice"):
+        return
     # scope trees (the converter's symbol-table handling differs per *host* version: the same program must give
     # text that behaves identically whichever host produced it)
     import random as _random
